@@ -405,6 +405,15 @@ def build_call(spec, c, op, ants):
                 on.append("perwave")
         mc.append(tuple(sorted(on)))
     rec["mc_triggers"] = mc
+    # the named flag columns in the order `_write_trigger` builds them (model: lean/PyrexVerif/D/H5Mc.lean)
+    cols = []
+    if incl:
+        cols += [("antenna_%d" % i, [bool(ant_trig(c, k, i)) for k in range(waves[i])]) for i in range(nant)]
+    if isinstance(tr, dict):
+        for key, val in tr.items():
+            if key != "global":
+                cols.append((key, [bool(val)] * nw if isinstance(val, bool) else [bool(v) for v in val]))
+    rec["mc_cols"] = (nw, cols)
     rec["rays"] = [(tuple(ray_tof(c, k, i) if k < rays[i] else 0.0 for i in range(nant)),
                     tuple(ray_kind(c, k, i) if k < rays[i] else "" for i in range(nant)))
                    for k in range(nr)]
@@ -1120,3 +1129,35 @@ def run_jobs(run, fn, jobs):
 
 def chunks(xs, size):
     return [xs[i:i + size] for i in range(0, len(xs), size)]
+
+
+# ---------------------------------------------------------------------------------------------
+# component-trigger table: column bookkeeping (model H5Mc)
+def mc_request(b):
+    """`mc` request for a fault-free file: one write per accepted add that records mc_triggers"""
+    ws = []
+    for c in b.ok_calls:
+        op = b.call_ops[c]
+        if recorded(b.spec, op, "mc_triggers"):
+            ws.append(b.calls[c]["mc_cols"])
+    toks = ["mc", str(len(ws))]
+    for n, cols in ws:
+        toks += [str(n), str(len(cols))]
+        for name, vals in cols:
+            toks += [name, str(len(vals))] + [str(int(v)) for v in vals]
+    return " ".join(toks)
+
+
+def mc_raw(fn):
+    """keys and rows of /monte_carlo_data/triggers in the reply format of the `mc` request"""
+    import h5py
+    with h5py.File(fn, "r") as f:
+        if LOC["mc_triggers"] not in f:
+            return "keys= | "
+        d = f[LOC["mc_triggers"]]
+        keys = [k.decode() if isinstance(k, bytes) else str(k) for k in d.attrs["keys"]]
+        data = d[...]
+        rows = ["".join("1" if data[r, k] else "0" for k in range(len(keys))) for r in range(data.shape[0])]
+        if data.ndim != 2 or data.shape[1] != len(keys):
+            return "shape %r keys %r" % (data.shape, keys)
+        return "keys=%s | %s" % (",".join(keys), ",".join(rows))
